@@ -10,8 +10,10 @@ import (
 
 	"github.com/ava-labs/avalanchego/ids"
 	"github.com/ava-labs/avalanchego/trace"
+	"github.com/ava-labs/avalanchego/utils/crypto/bls"
 	"github.com/ava-labs/avalanchego/utils/logging"
 	"github.com/ava-labs/avalanchego/utils/wrappers"
+	"github.com/ava-labs/avalanchego/vms/platformvm/warp"
 
 	"github.com/ava-labs/hypersdk/codec"
 	"github.com/ava-labs/hypersdk/consts"
@@ -78,3 +80,12 @@ func VerifNewBlock(header BlockHeader, certs []*ChunkCertificate) (Block, error)
 	blk.blkID = utils.ToID(blk.blkBytes)
 	return blk, nil
 }
+
+// VerifSignChunk signs a chunk exactly as BuildChunk does, without storing, certifying or gossiping
+// it (a chunk as a producer could hand it to a single validator).
+func VerifSignChunk[T Tx](unsigned UnsignedChunk[T], networkID uint32, chainID ids.ID, pk *bls.PublicKey, signer warp.Signer) (Chunk[T], error) {
+	return signChunk[T](unsigned, networkID, chainID, pk, signer)
+}
+
+// VerifBytes returns the chunk's canonical encoding.
+func (c Chunk[T]) VerifBytes() []byte { return c.bytes }
